@@ -212,6 +212,10 @@ fn run_on<D: Store>(f: &[&str]) -> String {
         Ok(b) => b,
         Err(e) => return e.to_string(),
     };
+    if f[2].ends_with("abandon") {
+        // the host started a list / a text / a byte list and never ended them, then builds the input value and runs the program
+        crate::store::abandon_constructions(&mut d);
+    }
     let input = match input_of(&mut d, f[4]) {
         Ok(a) => a,
         Err(e) => return format!("SETUP-ERR {}", e),
@@ -233,7 +237,21 @@ fn run_on_simple_clone(f: &[&str]) -> String {
     if d.set_end_of_constant(last).is_err() {
         return "SETUP-ERR set_end_of_constant".to_string();
     }
-    let mut c = match d.clone_with_aux_without_data() {
+    // the four public clone helpers; the two that do not carry the auxiliary data get the host put back by hand, so that every
+    // variant must behave exactly like the original object
+    let cloned = match f[2] {
+        "simpleclone" => d.clone_with_aux_without_data(),
+        "simpleclone2" => d.clone_with_aux_and_retained_data(vec![]),
+        "simpleclone3" => d.clone_without_data().map(|mut c| {
+            *c.auxiliary_data_mut() = d.auxiliary_data().clone();
+            c
+        }),
+        _ => d.clone_with_retained_data(vec![]).map(|mut c| {
+            *c.auxiliary_data_mut() = d.auxiliary_data().clone();
+            c
+        }),
+    };
+    let mut c = match cloned {
         Ok(c) => c,
         Err(_) => return "SETUP-ERR clone".to_string(),
     };
@@ -249,9 +267,9 @@ pub fn run_case(f: &[&str]) -> String {
         return "BAD-CASE fields".into();
     }
     match f[2] {
-        "simpleclone" => run_on_simple_clone(f),
-        "simple" => run_on::<SimpleStore>(f),
-        "basic" => run_on::<BasicStore>(f),
+        "simpleclone" | "simpleclone2" | "simpleclone3" | "simpleclone4" => run_on_simple_clone(f),
+        "simple" | "simpleabandon" => run_on::<SimpleStore>(f),
+        "basic" | "basicabandon" => run_on::<BasicStore>(f),
         s => format!("BAD-CASE store {}", s),
     }
 }
